@@ -85,10 +85,12 @@ def main(argv=None):
             for x in fails:
                 print('   ', x)
             out.append(json.dumps(common.jsonable(fails), sort_keys=True))
+        f1, f2 = json.loads(out[0]), json.loads(out[1])
         if out[0] != out[1]:
-            print('replay is NOT deterministic (harness error)')
-            return 2
-        if json.loads(out[0]):
+            # a failure that involves process-global state can look different the second time in the same process: that is an
+            # observation about the code under test, not a harness error, as long as the violation itself reproduces
+            print('note: the two replay runs differ (the failing behaviour depends on process history)')
+        if f1 or f2:
             print(f'VIOLATION property={pid} replay={a.replay}')
             return 1
         return 0
